@@ -75,6 +75,12 @@ def handleG (o : Ops K) (c : Case) : Res := Id.run do
   let lib := c.str "libout"
   let tags := if lib ≠ "" then tags ++ ["library-printed"] else tags
   if info < 0 then return Res.propFalse s!"{call}: info={info} (argument rejected; library printed \"{lib}\")" tags
+  -- a deliberately small caller work area: info > n is the documented outcome; the caller's matrix must come
+  -- back with its own index arrays (the driver permutes the row indices in place around the factorization)
+  if info > n + 1 ∧ c.p "tinywork" "0" == "1" then
+    if c.p "aidx_changed" ≠ "none" then
+      return Res.propFalse s!"{call}: out-of-space return (info={info} > n={n}) but A's {c.p "aidx_changed"} array differs on exit (row indices not restored)" ("out-of-space" :: tags)
+    return Res.ok (n ≥ 2) ("out-of-space" :: tags) "exact"
   if info > n ∧ !(info == n + 1 ∧ c.pNat "condnum" = 1) then
     return Res.propFalse s!"{call}: info={info} exceeds n={n}" tags
   if c.p "aidx_changed" ≠ "none" then return Res.propFalse s!"{call}: A's {c.p "aidx_changed"} array differs on exit (row indices not restored)" tags
